@@ -1,20 +1,11 @@
 import GlyModel.Generated.Tables
 import GlyModel.Smiles.Graph
+import GlyModel.Mono.OpenForm
 /-
   C14 — Skeleton-changing prefixes and suffixes perform their defining transformation. (Property theorems only.)
 -/
 namespace Gly.Props.C14
-open Gly Gly.Gen
-
-/-- Text rewrites of `check_for_open_form` (reactor_basic.py) on an open-form row. -/
-def replaceFirstC (s : List Char) (by_ : List Char) : List Char :=
-  match s with
-  | [] => []
-  | 'C' :: rest => by_ ++ rest
-  | c :: rest => c :: replaceFirstC rest by_
-
-def onic (s : List Char) : List Char := replaceFirstC s "C(=O)".toList
-def aricEnd (s : List Char) : List Char := s.dropLast ++ "(=O)O".toList
+open Gly Gly.Gen Gly.Basic
 
 /-- Shape precondition of the `-onic` / `-aric` rewrites, decided over the complete regenerated open-form table:
     every alditol row starts with `OC` or `C(O)` (so that the first `C` of the text is C1 and carries the primary
@@ -78,6 +69,56 @@ theorem C14_aric_table : openTable.all aricEndOk = true := by decide +kernel
 theorem C14_aric_excluded :
     (openTable.filter (fun r => !endsWith "CO".toList r.smiles)).all (fun r =>
       ["QUI-OL", "RHA-OL", "FUC-OL", "INS", "6DALT-OL", "6DTAL-OL", "6DGUL-OL", "OLI-OL", "TYV-OL", "ABE-OL", "PAR-OL", "DIG-OL", "COL-OL"].contains (String.ofList r.key)) = true := by
+  decide +kernel
+
+/-! ### the Model of `check_for_open_form` / `check_for_resizing` (tied to reactor_basic.py by correspondence on every run) -/
+
+/-- `X-ol`: the new text is the alditol row of the open-form table, unchanged. -/
+theorem C14_ol_is_the_table_row (sac : List Char) (row : MonoRow)
+    (h1 : "-onic".toList ≠ sac) (h2 : "-aric".toList ≠ sac) (h3 : "-ulosonic".toList ≠ sac) (h4 : "-ulosaric".toList ≠ sac)
+    (hrow : Model.findRow openTable (sac ++ "-ol".toList) = some row) :
+    openFormText [sac, "-ol".toList] [frontCfg.tSAC, frontCfg.tMOD] 0 = some row.smiles := by
+  have hrow' : Model.findRow openTable (sac ++ ['-', 'o', 'l']) = some row := hrow
+  have g1 : ['-', 'o', 'n', 'i', 'c'] ≠ sac := h1
+  have g2 : ['-', 'a', 'r', 'i', 'c'] ≠ sac := h2
+  have g3 : ['-', 'u', 'l', 'o', 's', 'o', 'n', 'i', 'c'] ≠ sac := h3
+  have g4 : ['-', 'u', 'l', 'o', 's', 'a', 'r', 'i', 'c'] ≠ sac := h4
+  simp [openFormText, getIndices, hrow', frontCfg, List.findIdx?, List.findIdx?.go, g1, g2, g3, g4]
+
+/-- `X-onic`: exactly the C1 rewrite of the alditol row (`C14_onic_table` says what that means as a molecule). -/
+theorem C14_onic_is_the_c1_rewrite (sac : List Char) (row : MonoRow)
+    (h1 : "-onic".toList ≠ sac) (h2 : "-aric".toList ≠ sac) (h3 : "-ulosonic".toList ≠ sac) (h4 : "-ulosaric".toList ≠ sac)
+    (hrow : Model.findRow openTable (sac ++ "-ol".toList) = some row) :
+    openFormText [sac, "-onic".toList] [frontCfg.tSAC, frontCfg.tMOD] 0 = some (onic row.smiles) := by
+  have hrow' : Model.findRow openTable (sac ++ ['-', 'o', 'l']) = some row := hrow
+  have g1 : ['-', 'o', 'n', 'i', 'c'] ≠ sac := h1
+  have g2 : ['-', 'a', 'r', 'i', 'c'] ≠ sac := h2
+  have g3 : ['-', 'u', 'l', 'o', 's', 'o', 'n', 'i', 'c'] ≠ sac := h3
+  have g4 : ['-', 'u', 'l', 'o', 's', 'a', 'r', 'i', 'c'] ≠ sac := h4
+  simp [openFormText, getIndices, hrow', frontCfg, List.findIdx?, List.findIdx?.go, g1, g2, g3, g4]
+
+/-- `X-aric` (X ≠ Qui): both rewrites, C1 first. -/
+theorem C14_aric_is_both_rewrites (sac : List Char) (row : MonoRow) (hq : sac ≠ "Qui".toList)
+    (h1 : "-onic".toList ≠ sac) (h2 : "-aric".toList ≠ sac) (h3 : "-ulosonic".toList ≠ sac) (h4 : "-ulosaric".toList ≠ sac)
+    (hrow : Model.findRow openTable (sac ++ "-ol".toList) = some row) :
+    openFormText [sac, "-aric".toList] [frontCfg.tSAC, frontCfg.tMOD] 0 = some (aricEnd (onic row.smiles)) := by
+  have hrow' : Model.findRow openTable (sac ++ ['-', 'o', 'l']) = some row := hrow
+  have g1 : ['-', 'o', 'n', 'i', 'c'] ≠ sac := h1
+  have g2 : ['-', 'a', 'r', 'i', 'c'] ≠ sac := h2
+  have g3 : ['-', 'u', 'l', 'o', 's', 'o', 'n', 'i', 'c'] ≠ sac := h3
+  have g4 : ['-', 'u', 'l', 'o', 's', 'a', 'r', 'i', 'c'] ≠ sac := h4
+  have hq' : ¬ sac = ['Q', 'u', 'i'] := hq
+  simp [openFormText, getIndices, hrow', frontCfg, List.findIdx?, List.findIdx?.go, g1, g2, g3, g4, hq']
+
+/-- Non-vacuity, and the keto-acid rewrite on a concrete row: `Kdo`-type open forms (`-ulosonic`) of galactitol. -/
+theorem C14_openform_examples :
+    openFormText ["Gal".toList, "-ol".toList] [frontCfg.tSAC, frontCfg.tMOD] 0 = some "OC[C@H](O)[C@@H](O)[C@@H](O)[C@H](O)CO".toList ∧
+    openFormText ["Gal".toList, "-onic".toList] [frontCfg.tSAC, frontCfg.tMOD] 0 = some "OC(=O)[C@H](O)[C@@H](O)[C@@H](O)[C@H](O)CO".toList ∧
+    openFormText ["Gal".toList, "-ulosonic".toList] [frontCfg.tSAC, frontCfg.tMOD] 0 = some "OC(=O)C(=O)[C@@H](O)[C@@H](O)[C@H](O)CO".toList ∧
+    openFormText ["Gal".toList, "Hep".toList, "-ol".toList] [frontCfg.tSAC, frontCfg.tSAC, frontCfg.tMOD] 6 =
+      some "OCC(O)[C@H](O)[C@@H](O)[C@@H](O)[C@H](O)CO".toList ∧
+    extension ["LD".toList, "Man".toList, "Hep".toList] [frontCfg.tMOD, frontCfg.tSAC, frontCfg.tSAC] 6 = some "[C@@H](O)CO".toList ∧
+    extension ["Gal".toList, "Oct".toList] [frontCfg.tSAC, frontCfg.tSAC] 6 = some "C(O)C(O)CO".toList := by
   decide +kernel
 
 end Gly.Props.C14
